@@ -282,7 +282,9 @@ fn check_timestamp(cx: &mut Ctx, t: i128, r: &mut Rng) {
         2 => *r.pick(&[93540, -93540, 19800, -16200, 3600]),
         _ => r.range(-93599, 93599) as i32,
     };
-    cx.eval(5);
+    let sep = *r.pick(&[b'T', b' ', b't']);
+    let lower = r.chance(1, 2);
+    cx.eval(7);
     let res = guard(|| {
         let s = ts.to_string();
         let back = s.parse::<Timestamp>().ok();
@@ -291,11 +293,33 @@ fn check_timestamp(cx: &mut Ctx, t: i128, r: &mut Rng) {
         let off = Offset::from_seconds(o).unwrap();
         let ws = ts.display_with_offset(off).to_string();
         let wback = ws.parse::<Timestamp>().ok().map(|x| x.as_nanosecond());
-        (s, back, ps, pback, ws, wback)
+        // printer options: precision x separator x lowercase (lowercase also affects the Zulu designator)
+        let printer = DateTimePrinter::new().precision(Some(prec as u8)).separator(sep).lowercase(lower);
+        let os = printer.timestamp_to_string(&ts);
+        let oback = DateTimeParser::new().parse_timestamp(&os).ok().map(|x| x.as_nanosecond());
+        let os2 = printer.timestamp_with_offset_to_string(&ts, off);
+        let oback2 = DateTimeParser::new().parse_timestamp(&os2).ok().map(|x| x.as_nanosecond());
+        (s, back, ps, pback, ws, wback, os, oback, os2, oback2)
     });
     match res {
         Err(p) => cx.violation(&format!("Timestamp print/parse/panic@{}", p.loc()), case, || "no panic".into(), || p.what.clone()),
-        Ok((s, back, ps, pback, ws, wback)) => {
+        Ok((s, back, ps, pback, ws, wback, os, oback, os2, oback2)) => {
+            let civ_trunc0 = trunc_to(t, prec);
+            if oback != Some(civ_trunc0) {
+                cx.violation("Timestamp/printer-options-parse", case, || format!("{} precision {} sep {:?} lower {}", civ_trunc0, prec, sep as char, lower), || format!("{:?} from {:?}", oback, os));
+            }
+            match read_datetime(&os, b"Tt ") {
+                Some(rd) if rd.offset == Some(None) && rd.civil_ns == civ_trunc0 && rd.frac_digits == prec => {}
+                other => cx.violation("Timestamp/printer-options-independent-reader", case, || format!("{} Z with {} digits", civ_trunc0, prec), || format!("{:?} from {:?}", other, os)),
+            }
+            if o % 60 == 0 {
+                let e = trunc_to(t + o as i128 * NS, prec) - o as i128 * NS;
+                if oback2 != Some(e) {
+                    cx.violation("Timestamp/printer-options-with-offset-parse", case, || format!("{}", e), || format!("{:?} from {:?}", oback2, os2));
+                }
+            } else if oback2.is_none() && o.abs() < 93570 && t > MIN_NS + 60 * NS && t < MAX_NS - 60 * NS {
+                cx.violation("Timestamp/printer-options-with-offset-rejected", case, || "parses".into(), || os2.clone());
+            }
             if back != Some(ts) {
                 cx.violation("Timestamp/print-parse", case, || format!("{}", t), || format!("{:?} from {:?}", back, s));
             }
@@ -331,11 +355,13 @@ fn check_zoned(cx: &mut Ctx, zid: &str, tz: &TimeZone, model: Option<&crate::tzr
     let zd = Zoned::new(ts, tz.clone());
     let case = || format!("zoned|{}|{}", zid, t);
     let prec = r.below(10) as usize;
+    let zsep = *r.pick(&[b'T', b' ', b't']);
+    let zlower = r.chance(1, 2);
     cx.eval(4);
     let res = guard(|| {
         let s = zd.to_string();
         let back = s.parse::<Zoned>().ok().map(|b| (b.timestamp().as_nanosecond(), b.offset().seconds(), civ_of(b.datetime()), b.time_zone().iana_name().map(|x| x.to_string()), b.time_zone() == zd.time_zone()));
-        let printer = DateTimePrinter::new().precision(Some(prec as u8));
+        let printer = DateTimePrinter::new().precision(Some(prec as u8)).separator(zsep).lowercase(zlower);
         let ps = printer.zoned_to_string(&zd);
         let pback = ps.parse::<Zoned>().ok().map(|b| b.timestamp().as_nanosecond());
         (s, back, ps, pback)
